@@ -91,6 +91,10 @@ fn opts_strategy() -> impl Strategy<Value = Opts> {
 }
 
 const DEST_REL: &str = "a/b/dest";
+/// the sandbox `S` sits three directory levels below the scratch root, and everything between is
+/// watched too: a restore that climbs out of `S` itself (nested `..` names) is still seen
+const GUARD_REL: &str = "g1/g2/g3";
+const DEST_FROM_ROOT: &str = "g1/g2/g3/a/b/dest";
 const OLD: i64 = 1_234_567_890;
 
 fn set_mtime(p: &Path, t: MTime) -> std::io::Result<()> {
@@ -138,11 +142,11 @@ struct OutEntry {
 }
 
 fn under_dest(k: &[u8]) -> bool {
-    k == DEST_REL.as_bytes()
-        || (k.len() > DEST_REL.len() && k.starts_with(DEST_REL.as_bytes()) && k[DEST_REL.len()] == b'/')
+    k == DEST_FROM_ROOT.as_bytes()
+        || (k.len() > DEST_FROM_ROOT.len() && k.starts_with(DEST_FROM_ROOT.as_bytes()) && k[DEST_FROM_ROOT.len()] == b'/')
 }
 
-/// everything in the sandbox that is not the destination (or below it), with ctime
+/// everything below the scratch root that is not the destination (or below it), with ctime
 fn outside_state(s: &Path) -> std::io::Result<BTreeMap<Vec<u8>, OutEntry>> {
     let mut out = BTreeMap::new();
     // the sandbox directory itself
@@ -1189,8 +1193,10 @@ pub fn ex_run(c: &ExCase, ctx: &Ctx) -> Outcome {
 
     // 3. sandbox with sentinels and the pre-existing destination
     let scratch = Scratch::new("c14");
-    let s = scratch.path();
-    let dest = match make_sandbox(s) {
+    let root_dir = scratch.path();
+    let s_buf = root_dir.join(GUARD_REL);
+    let s = s_buf.as_path();
+    let dest = match fs::create_dir_all(s).and_then(|()| make_sandbox(s)) {
         Ok(d) => d,
         Err(e) => fail!(&[], "harness: cannot build the sandbox: {e}"),
     };
@@ -1198,7 +1204,7 @@ pub fn ex_run(c: &ExCase, ctx: &Ctx) -> Outcome {
     if let Err(e) = materialise(&dmodel, &dest, root, &mut BTreeMap::new()) {
         return out.skip(format!("harness: cannot materialise the destination: {e}"));
     }
-    let (pre, before) = match (walk(&dest), outside_state(s)) {
+    let (pre, before) = match (walk(&dest), outside_state(root_dir)) {
         (Ok(a), Ok(b)) => (a, b),
         (a, b) => fail!(&[], "harness: cannot walk the sandbox: {:?} {:?}", a.err(), b.err()),
     };
@@ -1259,7 +1265,7 @@ pub fn ex_run(c: &ExCase, ctx: &Ctx) -> Outcome {
     out = out.class(if res.is_ok() { "restore_ok" } else { "restore_err" });
 
     // 5. nothing outside the destination may change, whatever happened
-    let after = match outside_state(s) {
+    let after = match outside_state(root_dir) {
         Ok(a) => a,
         Err(e) => fail!(&keys, "cannot walk the sandbox after the restore: {e}"),
     };
@@ -1590,8 +1596,10 @@ pub fn host_run(c: &HostCase, ctx: &Ctx) -> Outcome {
     }
 
     let scratch = Scratch::new("c14h");
-    let s = scratch.path();
-    let dest = match make_sandbox(s) {
+    let root_dir = scratch.path();
+    let s_buf = root_dir.join(GUARD_REL);
+    let s = s_buf.as_path();
+    let dest = match fs::create_dir_all(s).and_then(|()| make_sandbox(s)) {
         Ok(d) => d,
         Err(e) => fail!("harness: cannot build the sandbox: {e}"),
     };
@@ -1653,7 +1661,7 @@ pub fn host_run(c: &HostCase, ctx: &Ctx) -> Outcome {
         Err(e) => return out.skip(format!("cannot reopen: {}", crate::engine::first_line(&e))),
     };
 
-    let before = match outside_state(s) {
+    let before = match outside_state(root_dir) {
         Ok(b) => b,
         Err(e) => fail!("harness: cannot walk the sandbox: {e}"),
     };
@@ -1663,7 +1671,7 @@ pub fn host_run(c: &HostCase, ctx: &Ctx) -> Outcome {
         Err(e) if e.contains("panicked") => "restore_panicked",
         Err(_) => "restore_err",
     });
-    let after = match outside_state(s) {
+    let after = match outside_state(root_dir) {
         Ok(a) => a,
         Err(e) => fail!("cannot walk the sandbox after the restore: {e}"),
     };
